@@ -308,7 +308,7 @@ func checkEngineStart(p *Prog, r *Report, worker *ssa.Function) {
 			for _, e := range s.Events {
 				if e.Kind == EvSend {
 					sends++
-					if mc := p.MakeChans(e.Chan); len(mc) != 1 {
+					if mc := p.MakeChans(s.Resolve(e.Chan)); len(mc) != 1 {
 						okEarly = false
 					} else if k, ok := constInt(mc[0].Size); !ok || k < 1 {
 						okEarly = false
